@@ -9,10 +9,10 @@ import Pms.Props.C09
 #print axioms Pms.Boo.C09_count_def
 #print axioms Pms.Boo.C09_sij_bound
 #print axioms Pms.Boo.C09_count_le
-#print axioms Pms.Boo.ql_le_one_of_sumSq
-#print axioms Pms.Boo.sumSq_qlm_le
+#print axioms Pms.Boo.C09_ql_le_one
+#print axioms Pms.Boo.C09_sumSq_bound
 #print axioms Pms.Boo.C09_ql_bounds
-#print axioms Pms.Boo.sumSq_qlmW_le
+#print axioms Pms.Boo.C09_sumSq_bound_weighted
 #print axioms Pms.Boo.C09_ql_bounds_weighted
 #print axioms Pms.Boo.C09_Ql_bounds
 #print axioms Pms.Boo.C09_w_def
@@ -22,5 +22,4 @@ import Pms.Props.C09
 #print axioms Pms.Boo.C09_corr_def
 #print axioms Pms.Boo.C09_spatial_def
 #print axioms Pms.Boo.C09_frame_mean
-#print axioms Pms.Boo.castPoly_eq_map
-#print axioms Pms.Boo.powN_eq_pow
+#print axioms Pms.Boo.C09_angles
